@@ -47,6 +47,8 @@ Structured == {"struct", "enum", "seq", "map", "bytes", "option_some", "option_n
 Classes == Prim \cup Structured \cup {"float32", "char", "error", "display_only", "debug_only",
                                       "none_prim", "none_struct"}
 
+Inspected == {"int", "float", "float32", "bool", "char"}
+
 Base(m) ==
     CASE m = "optional_default" -> "default"
       [] m = "optional_as_value" -> "as_value"
@@ -86,7 +88,10 @@ Meaning(m, c) ==
     ELSE {"present"} \cup
         CASE b = "default" ->
                 \* numbers, booleans, strings pull back typed; anything else displays
-                IF c \in Prim \cup {"float32"} THEN {"pull", "display"} ELSE {"display"}
+                IF c \in Prim \cup {"float32"} THEN {"pull"} ELSE {"display"}
+          \* `inspect: true` asks for the value to be captured as the primitive it is; how a
+          \* number / bool / char then formats is not promised (don't-care)
+          [] b \in {"as_display_inspect", "as_debug_inspect"} /\ c \in Inspected -> {}
           [] b \in {"as_display", "as_display_inspect"} -> {"display"}
           \* a str is captured as the string it is under every mode (impl Capture* for str):
           \* its own text or its Debug text are both accepted
